@@ -147,7 +147,8 @@ def build_class(prog):
                 self._trace.append((i, (), (), bool(self.paused), self.status, ctxsnap, [f.done() for f in self._futs]))
                 if oc[0] == 'waiton' and oc[2]:
                     if via_call and i % 2 == 0:
-                        self.to_context(**{f'k{k}': self._futs[f] for f, k in oc[2]})     # the other way of registering
+                        for f, k in oc[2]:              # the other way of registering, one call per item: a key may be used
+                            self.to_context(**{f'k{k}': self._futs[f]})     # for SEVERAL items (a pure "wait for all")
                         return None
                     return plumpy.ToContext(**{f'k{k}': self._futs[f] for f, k in oc[2]})
                 if oc[0] == 'raise':
@@ -226,6 +227,7 @@ CORPUS = collections.OrderedDict([
     ('Unsucc', {'kind': 'proc', 'nfut': 0, 'fns': {0: (1, ('cont', 1, [4, 5], {1: 6, 0: 7})), 1: (0, ('stop', 2, False))}}),
     ('KillCmd', {'kind': 'proc', 'nfut': 0, 'fns': {0: (1, ('cont', 1, [], {})), 1: (0, ('kill',))}}),
     ('SubCmds', {'kind': 'proc', 'nfut': 0, 'fns': {0: (0, ('cont', 2, [], {})), 2: (0, ('wait', 5)), 5: (0, ('stop', 4, True))}}),
+    ('SameKey', dict(chain_prog([[(0, 0), (1, 0), (2, 0)], []], 3), via='call')),
     ('KillNoMsg', {'kind': 'proc', 'nfut': 0, 'fns': {0: (1, ('cont', 1, [], {})), 1: (0, ('cont', 2, [], {})), 2: (0, ('kill',))}}),
     ('WaitWait', {'kind': 'proc', 'nfut': 0, 'fns': {0: (0, ('wait', 1)), 1: (1, ('wait', 2)), 2: (0, ('stop', None, True))}}),
     ('Chain2', chain_prog([[(0, 0), (1, 1)], [(2, 0)], []], 3)),
@@ -248,8 +250,12 @@ def random_prog(rng):
             keys = rng.sample(range(3), k)      # distinct keys: ToContext(**kw) cannot carry a key twice
             steps.append(list(zip(futs, keys)))
         steps.append([])
+        via_call = rng.random() < 0.4
+        if via_call and rng.random() < 0.5:
+            # to_context() called once per item may hand over several items under ONE key (even steps register by call)
+            steps = [[(f, 0) for f, _k in st] if (i % 2 == 0 and len(st) > 1) else st for i, st in enumerate(steps)]
         prog = chain_prog(steps, nfut)
-        if rng.random() < 0.4:
+        if via_call:
             prog['via'] = 'call'
         return prog
     n = rng.randint(1, 4)
